@@ -29,6 +29,7 @@ from .core import AnalysisError, dotted, norm
 
 MAX_PATHS = 64
 DIGEST_BYTES = 32          # SHA-256, the only hash the interpreter models
+UNKNOWN_MEMBER = '<?>'     # marks a set whose contents are not known exactly
 MAX_ITER = 512
 
 
@@ -161,7 +162,7 @@ class TermEval:
             recv = None
             if isinstance(e.func, ast.Attribute):
                 recv = self.eval(e.func.value, env)
-            symbolic = (SymStr, Term, Digest, Xor, list, tuple, Hash, dict)
+            symbolic = (SymStr, Term, Digest, Xor, list, tuple, Hash, dict, set)
             if any(isinstance(a, symbolic) for a in args + [v for _, v in kws]) or isinstance(recv, symbolic):
                 if isinstance(recv, symbolic) or isinstance(recv, (str, bytes)):
                     return Term('.' + e.func.attr, (_freeze(recv),) + tuple(_freeze(a) for a in args),
@@ -191,6 +192,12 @@ class TermEval:
     def _e_List(self, e, env):
         return [self.eval(x, env) for x in e.elts]
 
+    def _e_Set(self, e, env):
+        vals = [self.eval(x, env) for x in e.elts]
+        if all(isinstance(v, (str, int, bytes)) for v in vals):
+            return set(vals)
+        return NotImplemented
+
     def _e_Dict(self, e, env):
         out = {}
         for k, v in zip(e.keys, e.values):
@@ -218,6 +225,8 @@ class TermEval:
 
     def _e_BinOp(self, e, env):
         a, b = self.eval(e.left, env), self.eval(e.right, env)
+        if isinstance(e.op, ast.BitOr) and isinstance(a, (set, frozenset)) and isinstance(b, (set, frozenset)):
+            return set(a) | set(b)
         if isinstance(e.op, ast.BitXor):
             xa, xb = as_xor(a), as_xor(b)
             if xa is not None and xb is not None:
@@ -430,6 +439,13 @@ class TermEval:
             if vals is not None:
                 return list(enumerate(vals))
             return NotImplemented
+        if cn in ('set', 'frozenset') and len(args) <= 1 and not kw:
+            if not args:
+                return set()
+            if isinstance(args[0], (set, frozenset, list, tuple)) and all(
+                    isinstance(v, (str, int, bytes)) for v in args[0]):
+                return set(args[0])
+            return NotImplemented
         if cn == 'bytearray' and len(args) == 1:
             v = args[0]
             if isinstance(v, int) and not isinstance(v, bool):
@@ -522,6 +538,23 @@ class TermEval:
                 if a == 'update' and len(args) == 1:
                     recv.inputs.append(args[0])
                     return None
+            if isinstance(recv, set):
+                if a in ('union', 'update') and all(isinstance(x, (set, frozenset, list, tuple)) for x in args):
+                    if a == 'union':
+                        out_ = set(recv)
+                        for x in args:
+                            out_ |= set(x)
+                        return out_
+                    for x in args:
+                        recv.update(x)
+                    return None
+                if a in ('add', 'discard') and len(args) == 1 and isinstance(args[0], (str, int, bytes)):
+                    getattr(recv, a)(args[0])
+                    return None
+                if a in ('union', 'update', 'add', 'discard', 'remove', 'clear', 'difference_update',
+                         'intersection_update', 'pop'):
+                    recv.add(UNKNOWN_MEMBER)        # contents no longer known exactly
+                    return None
             if isinstance(recv, list):
                 if a == 'reverse' and not args:
                     recv.reverse()
@@ -583,7 +616,7 @@ class TermEval:
                     env[n.value.id] = Opaque(f'?{n.value.id}')
                 elif isinstance(n, ast.Call) and isinstance(n.func, ast.Attribute) \
                         and isinstance(n.func.value, ast.Name) and n.func.value.id in env \
-                        and isinstance(env[n.func.value.id], (list, Hash, dict)):
+                        and isinstance(env[n.func.value.id], (list, Hash, dict, set)):
                     env[n.func.value.id] = Opaque(f'?{n.func.value.id}')
 
     def run(self, fn: ast.FunctionDef, env: dict) -> list[Path]:
@@ -701,6 +734,8 @@ def _freeze(v):
         return tuple(_freeze(x) for x in v)
     if isinstance(v, dict):
         return tuple(sorted((str(k), _freeze(x)) for k, x in v.items()))
+    if isinstance(v, (set, frozenset)):
+        return frozenset(v)
     if isinstance(v, Hash):
         return ('hash', tuple(_freeze(x) for x in v.inputs))
     return v
